@@ -657,6 +657,64 @@ func (s *vKindSys) Key() string {
 	return vCanonVec(s.idx) + "#" + s.m.key()
 }
 
+// vKindSweep: for EVERY n in 1..maxN a structured instance with n vectors (every third
+// removed, then flushed) is built on a fresh index and judged with the full query
+// alphabet before and after the flush: capacity / growth effects (counts crossing 8, 16,
+// 32, 64 ...) that the small-scope BFS cannot reach. Enumerated over n, not sampled.
+func vKindSweep(c *vCtx, cfg vVecCfg, maxN int, hook func(s *vKindSys, h []string)) {
+	for n := 1; n <= maxN; n++ {
+		if c.Expired() {
+			c.Bound = fmt.Sprintf("sweep sizes 1..%d", n-1)
+			return
+		}
+		s := newKindSys(c, cfg, 3)
+		s.cfgS = cfg.String() + fmt.Sprintf(" sweep n=%d", n)
+		s.vals = vStructuredVecs(cfg.Dim, n)
+		s.hook = hook
+		s.noMulti = n > 12
+		s.Reset()
+		var hist []vOp
+		ap := func(op vOp, check bool) {
+			s.Apply(op, hist, check)
+			hist = append(hist, op)
+			c.Transitions++
+		}
+		for i := 0; i < n; i++ {
+			lvl := 0
+			if cfg.Kind == "hnsw" && i%5 == 4 {
+				lvl = 1
+			}
+			ap(vOp{K: "Add", A: i + 1, B: i, C: lvl}, i == n-1)
+		}
+		for i := 2; i < n; i += 3 {
+			last := i+3 >= n
+			ap(vOp{K: "Remove", A: i + 1}, last)
+		}
+		ap(vOp{K: "Flush"}, true)
+		if n < maxN {
+			// continue after the flush: one more add
+			s.vals = append(s.vals, []float32(vStructuredVecs(cfg.Dim, n+1)[n]))
+			ap(vOp{K: "Add", A: n + 1, B: n}, true)
+		}
+		c.Traces++
+		c.NewState(s.cfgS)
+	}
+	c.Sample(fmt.Sprintf("%s: n structured vectors, every third removed, flush, one more add; for every n in 1..%d", cfg.String(), maxN))
+	c.Bound = fmt.Sprintf("sweep sizes 1..%d", maxN)
+}
+
+func vSweepCfgs() []vVecCfg {
+	return []vVecCfg{
+		{Kind: "flat", Metric: Euclidean, Dim: 2},
+		{Kind: "flat", Metric: Cosine, Dim: 3},
+		{Kind: "hnsw", Metric: Euclidean, Dim: 2, M: 4, Ef: 16},
+		{Kind: "ivf", Metric: Euclidean, Dim: 2, NList: 3, Train: 2},
+		{Kind: "ivf", Metric: L2Squared, Dim: 3, NList: 5, Train: 2},
+		{Kind: "pq", Metric: Euclidean, Dim: 4, M: 2, NBits: 3, Train: 2},
+		{Kind: "ivfpq", Metric: Euclidean, Dim: 4, NList: 3, M: 2, NBits: 3, Train: 2},
+	}
+}
+
 func vC02Configs(tier string) []vVecCfg {
 	var out []vVecCfg
 	dims := []int{2}
@@ -720,9 +778,24 @@ func init() {
 					vBFS(c, newKindSys(c, cfg, nids), depth)
 				}})
 			}
+			maxN := 70
+			if tier == "thorough" {
+				maxN = 300
+			}
+			for _, cfg := range vSweepCfgs() {
+				cfg := cfg
+				sh = append(sh, vShard{Name: "sweep/" + strings.ReplaceAll(cfg.String(), " ", ","), Run: func(c *vCtx) { vKindSweep(c, cfg, maxN, nil) }})
+			}
 			return sh
 		},
 		Replay: func(c *vCtx, v *vViolation) bool {
+			if i := strings.Index(v.Config, " sweep n="); i >= 0 {
+				var n int
+				fmt.Sscanf(v.Config[i:], " sweep n=%d", &n)
+				vKindSweep(c, vParseVecCfg(v.Config[:i]), n+1, nil)
+				_, ok := c.viol[v.Sig()]
+				return ok
+			}
 			vReplayHist(newKindSys(c, vParseVecCfg(v.Config), 3), v.History)
 			_, ok := c.viol[v.Sig()]
 			return ok
